@@ -249,31 +249,61 @@ func Discharge(obls []*Obligation, workdir string, timeoutS int) error {
 			if o.timeout > to || (o.timeout > 0 && o.expect() == "notunsat") {
 				to = o.timeout
 			}
-			o.Result = Solve(o.File, to, nil)
-			if (o.Result.Status == "timeout" || o.Result.Status == "unknown") && o.expect() == "unsat" && o.RawScript == "" &&
-				o.Goal != nil && o.Goal.Op == "and" && len(o.Goal.Args) <= 64 {
-				// fallback: prove the conjuncts one by one under the same assumptions
-				total := o.Result.Time
-				allOK := true
-				backend := ""
-				for k, g := range o.Goal.Args {
-					sc := o.Bank.Script(o.Assume, g, o.chunks, o.Prelude, o.Axioms)
-					f := fmt.Sprintf("%s.part%d.smt2", strings.TrimSuffix(o.File, ".smt2"), k)
-					os.WriteFile(f, []byte(sc), 0o644)
-					r := Solve(f, to, nil)
-					total += r.Time
-					if r.Status != "unsat" {
-						allOK = false
-						break
-					}
-					backend = r.Backend
+			splittable := o.expect() == "unsat" && o.RawScript == "" && o.Goal != nil && o.Goal.Op == "and" && len(o.Goal.Args) <= 64
+			if splittable && len(o.Goal.Args) >= 4 {
+				// conjunctive goals (expanded block-wise quantifiers): prove the conjuncts one by one
+				if r, ok := solveSplit(o, to); ok {
+					o.Result = r
+					return
 				}
-				if allOK {
-					o.Result = SolveResult{Status: "unsat", Backend: backend + "(split)", Time: total, Detail: fmt.Sprintf("proved as %d separate conjuncts", len(o.Goal.Args))}
+			}
+			o.Result = Solve(o.File, to, nil)
+			if (o.Result.Status == "timeout" || o.Result.Status == "unknown") && splittable && len(o.Goal.Args) < 4 {
+				if r, ok := solveSplit(o, to); ok {
+					o.Result = r
 				}
 			}
 		}(o)
 	}
 	wg.Wait()
 	return firstErr
+}
+
+// solveSplit proves a conjunctive goal conjunct by conjunct under the same assumptions.
+func solveSplit(o *Obligation, to int) (SolveResult, bool) {
+	total := 0.0
+	backend := ""
+	type res struct {
+		r SolveResult
+	}
+	results := make([]SolveResult, len(o.Goal.Args))
+	var wg sync.WaitGroup
+	lim := make(chan struct{}, 4)
+	for k, g := range o.Goal.Args {
+		wg.Add(1)
+		go func(k int, g *Term) {
+			defer wg.Done()
+			lim <- struct{}{}
+			defer func() { <-lim }()
+			if g.IsTrue() {
+				results[k] = SolveResult{Status: "unsat", Backend: "simplifier"}
+				return
+			}
+			sc := o.Bank.Script(o.Assume, g, o.chunks, o.Prelude, o.Axioms)
+			f := fmt.Sprintf("%s.part%d.smt2", strings.TrimSuffix(o.File, ".smt2"), k)
+			os.WriteFile(f, []byte(sc), 0o644)
+			results[k] = Solve(f, to, nil)
+		}(k, g)
+	}
+	wg.Wait()
+	for _, r := range results {
+		total += r.Time
+		if r.Status != "unsat" {
+			return SolveResult{}, false
+		}
+		if r.Backend != "simplifier" {
+			backend = r.Backend
+		}
+	}
+	return SolveResult{Status: "unsat", Backend: backend + "(split)", Time: total, Detail: fmt.Sprintf("proved as %d separate conjuncts", len(o.Goal.Args))}, true
 }
